@@ -70,7 +70,7 @@ static void w_setup(int cfg, int thorough)
             for (b = 0; b < c->nbeg; b++) for (e = 0; e < c->nend; e++) w_ops[w_nops++] = OP(O_SLICE, a, s, c->begs[b], c->ends[e]);
             w_ops[w_nops++] = OP(O_UNSLICE, a, s, 0, 0);
         }
-        w_ops[w_nops++] = OP(O_RESET, a, 0, 0, 0); w_ops[w_nops++] = OP(O_RELEASE, a, 0, 0, 0);
+        w_ops[w_nops++] = OP(O_RESET, a, 0, 0, 0); w_ops[w_nops++] = OP(O_RELEASE, a, 0, 0, 0); w_ops[w_nops++] = OP(O_RELEASE, a, 1, 0, 0);       /* b == 1: no out-parameter */
     }
 }
 static const char *w_config_desc(void) { return cfgdesc; }
@@ -217,8 +217,9 @@ static void w_apply(mc_op_t o)
     case O_RELEASE: {
         static void * volatile out; int b = O[a].buf;
         out = (void *)&out;
-        SHIM_CALL(ab, cstl_array_release(&A[a], (void **)&out));
+        SHIM_CALL(ab, cstl_array_release(&A[a], OB(o) ? NULL : (void **)&out));
         if (ab) break;
+        if (OB(o)) out = (b >= 0 && !B[b].internal && B[b].refs == 1) ? (void *)EXT[B[b].ext] : NULL;      /* "this parameter may be NULL": same effect, nothing reported */
         if (b >= 0 && !B[b].internal && B[b].refs == 1) {
             MC_COUNT(K_RELEASE_OK);
             MC_CHECK(PC14, out == (void *)EXT[B[b].ext], "release by the sole user of external buffer %d returned %p instead of the buffer", B[b].ext, out);
@@ -319,7 +320,7 @@ static void w_opname(mc_op_t o, char *b, size_t n)
     case O_SLICE: snprintf(b, n, "slice(a%d,%s,%s,->a%d)", OA(o), vname[OD(o)], vname[OE(o)], OB(o)); break;
     case O_UNSLICE: snprintf(b, n, "unslice(a%d,->a%d)", OA(o), OB(o)); break;
     case O_RESET: snprintf(b, n, "reset(a%d)", OA(o)); break;
-    default: snprintf(b, n, "release(a%d)", OA(o)); break;
+    default: snprintf(b, n, OB(o) ? "release(a%d,NULL)" : "release(a%d,&p)", OA(o)); break;
     }
 }
 static int w_nontrivial(void) { int a, c = 0; for (a = 0; a < NO; a++) c += O[a].off > 0; return c > 0; }
